@@ -262,9 +262,13 @@ package rag
 //@   ensures is_a_trailing_part_of_the_text: len(r) == 0 || (samebase(r, text) && off(r) >= off(text) && off(r) + len(r) <= off(text) + len(text))
 //@   ensures within_configured_size: len(r) <= og.config.Size
 //@   ensures starts_on_a_character_boundary: validUTF8(text, st) && len(r) > 0 ==> st[off(r) - off(text)] == 0
+//@   ensures ends_on_a_character_boundary: validUTF8(text, st) && len(r) > 0 ==> st[off(r) - off(text) + len(r)] == 0
 //@   loop 0:
 //@     invariant len(text) - og.config.Size <= start && start <= len(text)
 //@     decreases len(text) - start
 //@   loop 1:
 //@     invariant len(text) - og.config.Size <= start && start <= len(text)
+//@     decreases len(text) - start
+//@   loop 2:
+//@     invariant len(text) - og.config.Size <= start && start <= len(text) && (validUTF8(text, st) ==> st[start] == 0)
 //@     decreases len(text) - start
